@@ -334,7 +334,8 @@ def units_idx(u):
 
 
 def digit_cls(d):
-    return 'D' if d == 'double' else 'S' if d == 'single' else 'N'
+    """'double' / 'single' / a number (tagged with its value in thousandths)"""
+    return 'D' if d == 'double' else 'S' if d == 'single' else ['N', int(round(float(d) * 1000))]
 
 
 def vals_sx(v, isz):
